@@ -44,25 +44,112 @@ theorem isSpaceB_of_digit {c : UInt8} (h : IsDigit c) : isSpaceB c = false := by
   have h2 : ¬ (c ≤ 13) := by rw [UInt8.le_iff_toNat_le]; simp; omega
   simp [isSpaceB, h1, h2]
 
-theorem pyInt_natDigits (n : Nat) : pyInt (natDigits n) = some (Int.ofNat n) := by
+theorem pyIntCore_natDigits (n : Nat) : pyIntCore (natDigits n) = some (Int.ofNat n) := by
   obtain ⟨c, t, hct, hd⟩ := natDigits_head n
   have h45 : c ≠ 45 := by intro e; subst e; exact not_digit_45 hd
   have h43 : c ≠ 43 := by intro e; subst e; revert hd; unfold IsDigit; decide
   have := pyIntNat_natDigits n
   rw [hct] at this
-  simp [pyInt, hct, isSpaceB_of_digit hd, h45, h43, this]
+  simp [pyIntCore, hct, isSpaceB_of_digit hd, h45, h43, this]
 
-theorem pyInt_intDigits (z : Int) : pyInt (intDigits z) = some z := by
+theorem pyIntCore_intDigits (z : Int) : pyIntCore (intDigits z) = some z := by
   unfold intDigits
   split
   · rename_i hz
     have hs : isSpaceB 45 = false := by decide
-    simp only [pyInt, List.dropWhile, hs, pyIntNat_natDigits]
+    simp only [pyIntCore, List.dropWhile, hs, pyIntNat_natDigits]
     simp
     omega
   · rename_i hz
-    rw [pyInt_natDigits]
+    rw [pyIntCore_natDigits]
     simp; omega
+
+theorem filter_digits_natDigits (n : Nat) : (natDigits n).filter isDigitB = natDigits n :=
+  List.filter_eq_self.mpr (fun d hd => (isDigitB_iff d).mpr (natDigits_isDigit n d hd))
+
+/-- below the cap `int()` reads back what `str()` wrote -/
+theorem pyInt_natDigits (n : Nat) (h : (natDigits n).length ≤ intMaxStrDigits) :
+    pyInt (natDigits n) = some (Int.ofNat n) := by
+  unfold pyInt
+  rw [filter_digits_natDigits, if_neg (by omega), pyIntCore_natDigits]
+
+theorem pyInt_intDigits (z : Int) (h : intFits z = true) : pyInt (intDigits z) = some z := by
+  have h' : (natDigits z.natAbs).length ≤ intMaxStrDigits := by simpa [intFits] using h
+  have hlen : ((intDigits z).filter isDigitB).length = (natDigits z.natAbs).length := by
+    unfold intDigits
+    split
+    · rename_i hz
+      have h45 : isDigitB 45 = false := by decide
+      have : (-z).toNat = z.natAbs := by omega
+      simp [h45, filter_digits_natDigits, this]
+    · rename_i hz
+      have : z.toNat = z.natAbs := by omega
+      simp [filter_digits_natDigits, this]
+  unfold pyInt
+  rw [hlen, if_neg (by omega), pyIntCore_intDigits]
+
+/-- `n < 10^k` has at most `k` digits (one for `k = 0`) -/
+theorem natDigits_length_le (n : Nat) : ∀ k, 0 < k → n < 10 ^ k → (natDigits n).length ≤ k := by
+  fun_induction natDigits n with
+  | case1 n h => intro k hk _; simp; omega
+  | case2 n h ih =>
+    intro k hk hn
+    have hk2 : 1 < k := by
+      cases k with
+      | zero => omega
+      | succ k => cases k with
+        | zero => simp at hn; omega
+        | succ k => omega
+    have : n / 10 < 10 ^ (k - 1) := by
+      have e : 10 ^ k = 10 ^ (k - 1) * 10 := by rw [← Nat.pow_succ]; congr 1; omega
+      rw [e] at hn
+      exact Nat.div_lt_of_lt_mul (by omega)
+    have := ih (k - 1) (by omega) this
+    simp; omega
+
+/-- `10^k ≤ n` has more than `k` digits -/
+theorem natDigits_length_gt (n : Nat) : ∀ k, 10 ^ k ≤ n → k < (natDigits n).length := by
+  fun_induction natDigits n with
+  | case1 n h =>
+    intro k hk
+    cases k with
+    | zero => simp
+    | succ k =>
+      have : 10 ≤ 10 ^ (k + 1) := by
+        have := Nat.pow_le_pow_right (n := 10) (by omega) (show 1 ≤ k + 1 by omega)
+        simpa using this
+      omega
+  | case2 n h ih =>
+    intro k hk
+    cases k with
+    | zero => simp
+    | succ k =>
+      have : 10 ^ k ≤ n / 10 := by
+        rw [Nat.pow_succ] at hk
+        exact (Nat.le_div_iff_mul_le (by omega)).mpr hk
+      have := ih k this
+      simp; omega
+
+theorem intFits_iff_lt (z : Int) : intFits z = true ↔ z.natAbs < 10 ^ intMaxStrDigits := by
+  unfold intFits
+  simp only [decide_eq_true_iff]
+  constructor
+  · intro h
+    apply Nat.lt_of_not_le
+    intro hle
+    have := natDigits_length_gt z.natAbs intMaxStrDigits hle
+    omega
+  · intro h
+    exact natDigits_length_le z.natAbs intMaxStrDigits (by decide) h
+
+theorem intFits_of_lt_ten (z : Int) (h : z.natAbs < 10) : intFits z = true := by
+  have := natDigits_length_le z.natAbs 1 (by omega) (by omega)
+  unfold intFits intMaxStrDigits
+  simp only [decide_eq_true_iff]; omega
+
+theorem natDigits_length_of_ssize (n : Nat) (h : n < 2 ^ 63) : (natDigits n).length ≤ intMaxStrDigits := by
+  have := natDigits_length_le n 19 (by omega) (by omega)
+  unfold intMaxStrDigits; omega
 
 theorem intDigits_ne_e (z : Int) : ∀ x ∈ intDigits z, x ≠ 101 := by
   intro x hx e
@@ -81,7 +168,7 @@ theorem decBytes_encBytes (b rest : List UInt8) (hb : b.length < 2 ^ 63) :
       intro x hx e; subst e; exact not_digit_58 (natDigits_isDigit _ _ hx))
     simpa using this
   rw [hr]
-  simp only [pyInt_natDigits]
+  simp only [pyInt_natDigits b.length (natDigits_length_of_ssize b.length hb)]
   have h1 : ¬ ((Int.ofNat b.length) < 0) := by simp
   have h2 : ¬ ((Int.ofNat b.length).toNat ≥ 2 ^ 63) := by simp; omega
   simp only [h1, h2, if_false]
@@ -90,10 +177,11 @@ theorem decBytes_encBytes (b rest : List UInt8) (hb : b.length < 2 ^ 63) :
 /-! ### decoding an encoding -/
 
 mutual
-  /-- every byte string and dict key is shorter than 2^63 (`Py_ssize_t`: CPython cannot hold a longer
-  one; `f.read(n)` raises OverflowError for `n ≥ 2^63`) -/
+  /-- what `bencode` can emit on CPython: every int is within the `str()` digit cap (`encodable`) and every
+  byte string and dict key is shorter than 2^63 (`Py_ssize_t`: CPython cannot hold a longer one;
+  `f.read(n)` raises OverflowError for `n ≥ 2^63`) -/
   def Fits : BVal → Prop
-    | .int _ => True
+    | .int z => intFits z = true
     | .bytes b => b.length < 2 ^ 63
     | .list l => FitsList l
     | .dict d => FitsDict d
@@ -144,10 +232,11 @@ theorem decF_end (last : Option UInt8) (fuel : Nat) (rest : List UInt8) :
 mutual
   theorem decF_enc (last : Option UInt8) : ∀ (v : BVal) (fuel : Nat) (rest : List UInt8), Fits v → cost v ≤ fuel →
       decF last fuel (enc v ++ rest) = .ok (ofB v, rest)
-    | .int z, fuel, rest, _, hf => by
+    | .int z, fuel, rest, hfit, hf => by
       obtain ⟨f, rfl⟩ : ∃ f, fuel = f + 1 := ⟨fuel - 1, by simp [cost] at hf; omega⟩
+      simp only [Fits] at hfit
       have hr := readUntil_append 101 (intDigits z) rest (intDigits_ne_e z)
-      simp [enc, decF, hr, pyInt_intDigits, ofB]
+      simp [enc, decF, hr, pyInt_intDigits z hfit, ofB]
     | .bytes b, fuel, rest, hfit, hf => by
       obtain ⟨f, rfl⟩ : ∃ f, fuel = f + 1 := ⟨fuel - 1, by simp [cost] at hf; omega⟩
       simp only [Fits] at hfit
@@ -225,6 +314,24 @@ mutual
     | .cons k v t => by
       have := cost_le v; have := costDict_le t
       simp [costDict, encDict]; omega
+end
+
+mutual
+  theorem fits_encodable : ∀ v : BVal, Fits v → encodable v = true
+    | .int _, h => by simpa [Fits, encodable] using h
+    | .bytes _, _ => by simp [encodable]
+    | .list l, h => by simp only [Fits] at h; simp [encodable, fitsList_encodable l h]
+    | .dict d, h => by simp only [Fits] at h; simp [encodable, fitsDict_encodable d h]
+  theorem fitsList_encodable : ∀ l : BList, FitsList l → encodableList l = true
+    | .nil, _ => by simp [encodableList]
+    | .cons v t, h => by
+      simp only [FitsList] at h
+      simp [encodableList, fits_encodable v h.1, fitsList_encodable t h.2]
+  theorem fitsDict_encodable : ∀ d : BDict, FitsDict d → encodableDict d = true
+    | .nil, _ => by simp [encodableDict]
+    | .cons _ v t, h => by
+      simp only [FitsDict] at h
+      simp [encodableDict, fits_encodable v h.2.1, fitsDict_encodable t h.2.2]
 end
 
 theorem decode_enc (v : BVal) (rest : List UInt8) (h : Fits v) : decode (enc v ++ rest) = .ok (ofB v, rest) := by
